@@ -74,6 +74,9 @@ func ruleC09(c *Check) {
 	// a consumer that cannot pay is paused: the filter judges providers by availability, response time and price against
 	// the fee cap — not by the consumer's balance, which would turn the pause into a silent skip
 	c.filterRules("C09.9")
+	// ... and it is paused exactly when the deduction is refused for lack of funds (a stricter affordability test pauses a
+	// context whose consumer can pay)
+	c.payRefusals("C09.10")
 }
 
 func ruleC10(c *Check) {
